@@ -58,7 +58,7 @@ def bias_and_gain_invariant_error(I, D, mask):  # NOQA
     grad = 2*R*alpha*raw_err
 
     if mask is not None:
-        grad2 = np.zeros(mask.shape, dtype=I.dtype)
+        grad2 = np.zeros(mask.shape, dtype=grad.dtype)  # the gradient's own dtype: integer model data must not truncate it
         grad2[mask] = grad
         grad = grad2
 
@@ -92,8 +92,9 @@ def mean_square_error(M, D, mask=None):
 
     # backprop
     if mask is not None:
-        grad = np.zeros_like(M)
-        grad[mask] = 2 * alpha * diff
+        gmask = 2 * alpha * diff
+        grad = np.zeros(M.shape, dtype=gmask.dtype)  # the gradient's own dtype: integer model data must not truncate it
+        grad[mask] = gmask
     else:
         grad = 2 * alpha * diff
 
@@ -133,7 +134,7 @@ def negative_loglikelihood(y, yhat, mask=None):
     dcost *= prefix
 
     if mask is not None:
-        dcost2 = np.zeros(mask.shape, dtype=y.dtype)
+        dcost2 = np.zeros(mask.shape, dtype=dcost.dtype)
         dcost2[mask] = dcost
         dcost = dcost2
 
